@@ -25,6 +25,9 @@ pub enum Medium {
     Misdirect { src: u64, dst: u64, len: u64 },
     /// the file is replaced by `head` bytes of itself followed by the tail of itself from `tail_from`
     Splice { head: u64, tail_from: u64 },
+    /// a little-endian 64-bit field overwritten with a structurally interesting value (the file
+    /// length, the field's own position, a neighbouring boundary, 0, a huge number)
+    SetU64 { off: u64, val: u64 },
 }
 
 #[derive(Clone, Debug)]
@@ -66,6 +69,11 @@ fn apply(bytes: &[u8], m: &Medium) -> Vec<u8> {
             let d = (*dst).min(n) as usize;
             let chunk = b[s..s + l].to_vec();
             b[d..d + l].copy_from_slice(&chunk);
+        }
+        Medium::SetU64 { off, val } => {
+            if *off + 8 <= n {
+                b[*off as usize..*off as usize + 8].copy_from_slice(&val.to_le_bytes());
+            }
         }
         Medium::Splice { head, tail_from } => {
             let h = (*head).min(n) as usize;
@@ -173,7 +181,8 @@ pub fn regions_of(bytes: &[u8], frames: &[(u64, u64)]) -> Vec<Region> {
     v
 }
 
-pub fn gen_faults(r: &mut Rng, regs: &[Region], n_bytes: u64, count: usize, log_writes: &[usize], repairable_only: bool) -> Vec<(Medium, &'static str)> {
+pub fn gen_faults(r: &mut Rng, regs: &[Region], bytes: &[u8], count: usize, log_writes: &[usize], repairable_only: bool) -> Vec<(Medium, &'static str)> {
+    let n_bytes = bytes.len() as u64;
     let mut out = Vec::new();
     for _ in 0..count {
         let mut reg = r.pickv(regs).clone();
@@ -189,6 +198,21 @@ pub fn gen_faults(r: &mut Rng, regs: &[Region], n_bytes: u64, count: usize, log_
         // flip yields a nearby plausible value instead of an absurd one
         let numeric = matches!(reg.name, "header.footer_offset" | "header.wal_offset" | "header.wal_size" | "header.wal_checkpoint_pos" | "header.wal_sequence" | "footer.toc_len");
         let off = if numeric && r.chance(3, 4) { reg.off + r.below(2) } else { reg.off + r.below(reg.len) };
+        if numeric && r.chance(1, 3) {
+            // length-field edit: boundary values around the file length, the footer position,
+            // the field's own position and the current value
+            let cur = bytes.get(reg.off as usize..reg.off as usize + 8).map(|b| u64::from_le_bytes(b.try_into().unwrap())).unwrap_or(0);
+            let foot = n_bytes.saturating_sub(56);
+            let cands = [
+                0u64, 1, n_bytes, n_bytes.saturating_sub(1), n_bytes + 1, foot, foot + 1, foot + 8, foot.saturating_sub(1), foot + 56, reg.off, reg.off + 8, 4096, 4096 + 65536,
+                cur.wrapping_add(1), cur.wrapping_sub(1), cur.wrapping_add(56), cur.wrapping_sub(56), cur.wrapping_mul(2), u64::MAX, 1 << 63, 1 << 32, (1 << 32) - 1, u64::MAX - 55,
+            ];
+            let val = *r.pickv(&cands);
+            if val != cur {
+                out.push((Medium::SetU64 { off: reg.off, val }, reg.name));
+                continue;
+            }
+        }
         let m = match r.below(if repairable_only { 6 } else { 12 }) {
             0..=3 => Medium::Flip { off, mask: 1 << r.below(8) },
             4 => Medium::Zero { off: reg.off, len: reg.len.min(r.range(1, 4096)) },
@@ -280,7 +304,7 @@ pub fn run_corrupt(scn: &Scenario, prop: &str, explore: bool) -> RunResult {
         vec![(m.clone(), "explicit")]
     } else if explore {
         let n = if tier_thorough { 300 } else { 40 };
-        gen_faults(&mut r, &regs, pristine.len() as u64, n, &log_writes, prop == "C21")
+        gen_faults(&mut r, &regs, &pristine, n, &log_writes, prop == "C21")
     } else {
         Vec::new()
     };
